@@ -1345,6 +1345,7 @@ var wrapsAComputingPackage = map[string]bool{"strings": true, "strconv": true, "
 var notPartOfTheEnvironment = map[string]string{
 	"ip":           "the position in the code, set by WithInstructionOffset for a REPL-style resume; not part of a Config",
 	"globalsGiven": "scratch flag of one application of options",
+	"os":           "a Config that names no OS leaves the VM the one it has: the alternative, setting it to nil, sends a VM that was made with vm.WithOS(sandbox) to the OS of the process as soon as it is used through risor.Eval (C12 asks for the opposite); found by a wave-13 agent after D124 had made the option unconditional",
 }
 
 func theConfigurationIsAppliedAsAWhole(c *core.Ctx) {
@@ -1439,6 +1440,54 @@ func theConfigurationIsAppliedAsAWhole(c *core.Ctx) {
 			"Config.VMOpts"+ife(!avoid, " produces an option that sets VirtualMachine."+name+" whatever the Config says about it", " can return without an option that sets VirtualMachine."+name+": a VM that was used before keeps what the earlier Config put there (risor.Eval(.., WithVM(m), WithoutDefaultGlobals()) after a default evaluation on m still reaches os; import works although this Config has no importer)"))
 	}
 	c.Stat("environment_fields", len(fl))
+	// the OS is only ever set to something: an option that would set it to nil is not produced
+	osIdx := fieldIdxByName(vmT, "os")
+	for _, b := range producer.Blocks {
+		for _, in := range b.Instrs {
+			call, ok := in.(*ssa.Call)
+			if !ok {
+				continue
+			}
+			cal := call.Call.StaticCallee()
+			if cal == nil || len(call.Call.Args) != 1 {
+				continue
+			}
+			writesOS := false
+			for _, an := range cal.AnonFuncs {
+				for _, st := range storesToField(an, vmT, osIdx) {
+					_ = st
+					writesOS = true
+				}
+			}
+			if !writesOS {
+				continue
+			}
+			arg := call.Call.Args[0]
+			guarded := false
+			for _, b2 := range producer.Blocks {
+				iff, ok := b2.Instrs[len(b2.Instrs)-1].(*ssa.If)
+				if !ok {
+					continue
+				}
+				bo, ok := iff.Cond.(*ssa.BinOp)
+				if !ok || (bo.Op != token.NEQ && bo.Op != token.EQL) || !(isNilValue(bo.X) || isNilValue(bo.Y)) {
+					continue
+				}
+				if !(bo.X == arg || bo.Y == arg || core.SameStorage(bo.X, arg) || core.SameStorage(bo.Y, arg)) {
+					continue
+				}
+				nn := b2.Succs[0]
+				if bo.Op == token.EQL {
+					nn = b2.Succs[1]
+				}
+				if nn == b || nn.Dominates(b) {
+					guarded = true
+				}
+			}
+			c.Check(guarded, "risor.Config.VMOpts|os|set-only-to-an-OS", p.Pos(call.Pos()),
+				"Config.VMOpts produces the option that sets the VM's OS"+ife(guarded, " only where the Config names one", " also where the Config names none: a VM that was made with an OS of its own (vm.WithOS(sandbox)) is set back to the OS of the process by the first risor.Eval on it"))
+		}
+	}
 }
 
 // ---------------------------------------------------------------------------
